@@ -126,6 +126,8 @@ class C17(Check):
             for c in itertools.combinations(TOKENS, n):
                 handlers.append({'types': list(c), 'open': False})
                 handlers.append({'types': list(c), 'open': True})
+                # the same handler after somebody spelled it with `...` in another position
+                handlers.append({'types': list(c), 'open': True, 'pre_dots': 0})
         # one case = one raised multiset against all handlers (keeps the case count manageable)
         for r in raised:
             yield {'forest': None, 'raised': r, 'handlers': handlers}
@@ -152,6 +154,8 @@ class C17(Check):
             handlers = []
             for _ in range(draw(st.integers(1, 6))):
                 handlers.append({'types': draw(st.lists(texpr, min_size=1, max_size=4)), 'open': draw(st.booleans())})
+                if handlers[-1]['open'] and draw(st.integers(0, 2)) == 0:
+                    handlers[-1]['pre_dots'] = draw(st.integers(0, len(handlers[-1]['types']) - 1))
             return {'forest': forest, 'raised': raised, 'handlers': handlers}
         return gen()
 
@@ -303,7 +307,19 @@ class C17(Check):
                 desc = 'Concurrent'
             else:
                 hts = [w.make_type(t) for t in h['types']]
+                other = None
+                if h.get('pre_dots') is not None and h['open']:
+                    # an undocumented spelling (`...` not last) evaluated first must not change what the documented one
+                    # means; whatever it returns is kept alive (specialisations are cached weakly) and not judged
+                    items = list(hts)
+                    items.insert(min(h['pre_dots'], len(items) - 1) if len(items) > 1 else 0, ...)
+                    try:
+                        other = Concurrent[tuple(items)]
+                    except Exception:       # noqa
+                        other = None
+                    out.features.add('dots_elsewhere_first')
                 H = Concurrent[tuple(hts + [...])] if h['open'] else Concurrent[tuple(hts)]
+                del other
                 ref = w.match(h['types'], h['open'], raised)
                 desc = 'Concurrent[%s%s]' % (h['types'], ', ...' if h['open'] else '')
             m1 = isinstance(exc, H)
